@@ -804,7 +804,12 @@ pub fn worker_main<P: Property>(p: &P, cfg: &RunCfg, stream: &str, start: usize,
             }
             for (sig, detail) in out_k.violations() {
                 if let Some(kf) = known_match(known, p.id(), &sig) {
-                    *local.known_hits.entry(kf.signature.clone()).or_default() += 1;
+                    let n = local.known_hits.entry(kf.signature.clone()).or_default();
+                    *n += 1;
+                    // maintenance aid: VERIF_SAVE_KNOWN=1 keeps one (unshrunk) example per known signature under found/
+                    if *n == 1 && std::env::var("VERIF_SAVE_KNOWN").is_ok() {
+                        write_replay(p.id(), &format!("knownhit-{}", kf.signature), &detail, &p.to_json(c), true);
+                    }
                     continue;
                 }
                 if reported.contains(&sig) || skip.contains(&sig) || reported.len() >= 3 {
